@@ -1,0 +1,128 @@
+//go:build verif
+
+package pppoe
+
+// Verification hooks for property C09 (no network input can crash or hang the gateway).
+// Accessors and injection points only; compiled only with -tags verif.
+
+import (
+	"fmt"
+	"net"
+	"sync"
+
+	"go.uber.org/zap"
+)
+
+// VerifC09Socket is an in-memory rawSocket that records every frame handed to send.
+type VerifC09Socket struct {
+	mu   sync.Mutex
+	sent [][]byte
+}
+
+func (s *VerifC09Socket) open(iface string, etherType uint16) error { return nil }
+func (s *VerifC09Socket) close() error                              { return nil }
+func (s *VerifC09Socket) recv(buf []byte) (int, error)              { return 0, fmt.Errorf("no data") }
+func (s *VerifC09Socket) send(iface string, dstMAC net.HardwareAddr, etherType uint16, data []byte) error {
+	s.mu.Lock()
+	defer s.mu.Unlock()
+	s.sent = append(s.sent, append([]byte(nil), data...))
+	return nil
+}
+
+// Frames returns copies of the frames sent so far.
+func (s *VerifC09Socket) Frames() [][]byte {
+	s.mu.Lock()
+	defer s.mu.Unlock()
+	out := make([][]byte, len(s.sent))
+	copy(out, s.sent)
+	return out
+}
+
+// Count returns the number of frames sent so far.
+func (s *VerifC09Socket) Count() int {
+	s.mu.Lock()
+	defer s.mu.Unlock()
+	return len(s.sent)
+}
+
+// VerifC09NewServer builds a Server on a fictitious interface with an in-memory socket.
+func VerifC09NewServer(cfg ServerConfig, mac net.HardwareAddr, logger *zap.Logger) (*Server, *VerifC09Socket, error) {
+	srv, err := NewServerWithInterface(cfg, logger, &net.Interface{Name: cfg.Interface, HardwareAddr: mac})
+	if err != nil {
+		return nil, nil, err
+	}
+	sock := &VerifC09Socket{}
+	srv.socket = sock
+	return srv, sock, nil
+}
+
+// VerifC09HandleDiscovery calls the discovery-stage frame handler (payload after the Ethernet header).
+func (s *Server) VerifC09HandleDiscovery(clientMAC net.HardwareAddr, data []byte) {
+	s.handleDiscovery(clientMAC, data)
+}
+
+// VerifC09HandleSession calls the session-stage frame handler (payload after the Ethernet header).
+func (s *Server) VerifC09HandleSession(clientMAC net.HardwareAddr, data []byte) {
+	s.handleSession(clientMAC, data)
+}
+
+// VerifC09Sessions exposes the server's session manager.
+func (s *Server) VerifC09Sessions() *SessionManager { return s.sessions }
+
+// VerifC09Fill marks every session id in [lo, hi] as live except those listed in free
+// (one shared placeholder session), and positions the allocation cursor.
+func (m *SessionManager) VerifC09Fill(lo, hi int, free []uint16, next uint16) {
+	m.mu.Lock()
+	defer m.mu.Unlock()
+	skip := make(map[uint16]bool, len(free))
+	for _, f := range free {
+		skip[f] = true
+	}
+	ph := &Session{ClientMAC: net.HardwareAddr{2, 0, 0, 0, 0, 9}}
+	for id := lo; id <= hi; id++ {
+		if !skip[uint16(id)] {
+			m.sessions[uint16(id)] = ph
+		}
+	}
+	m.nextID = next
+}
+
+// VerifC09NextID returns the allocation cursor.
+func (m *SessionManager) VerifC09NextID() uint16 {
+	m.mu.RLock()
+	defer m.mu.RUnlock()
+	return m.nextID
+}
+
+// VerifC09LastIdentifier returns the identifier of the last Configure-Request sent.
+func (lcp *LCPStateMachine) VerifC09LastIdentifier() uint8 {
+	lcp.mu.RLock()
+	defer lcp.mu.RUnlock()
+	return lcp.lastIdentifier
+}
+
+// VerifC09LastIdentifier returns the identifier of the last Configure-Request sent.
+func (ipcp *IPCPStateMachine) VerifC09LastIdentifier() uint8 {
+	ipcp.mu.RLock()
+	defer ipcp.mu.RUnlock()
+	return ipcp.lastIdentifier
+}
+
+// VerifC09LastIdentifier returns the identifier of the last Configure-Request sent.
+func (ipv6cp *IPV6CPStateMachine) VerifC09LastIdentifier() uint8 {
+	ipv6cp.mu.RLock()
+	defer ipv6cp.mu.RUnlock()
+	return ipv6cp.lastIdentifier
+}
+
+// VerifC09StopTimers stops the restart timers so that a finished case leaves no timer behind.
+func (lcp *LCPStateMachine) VerifC09StopTimers()       { lcp.stopTimer() }
+func (ipcp *IPCPStateMachine) VerifC09StopTimers()     { ipcp.stopTimer() }
+func (ipv6cp *IPV6CPStateMachine) VerifC09StopTimers() { ipv6cp.stopTimer() }
+
+// VerifC09ChapID returns the identifier of the outstanding CHAP challenge.
+func (a *Authenticator) VerifC09ChapID() uint8 {
+	a.mu.RLock()
+	defer a.mu.RUnlock()
+	return a.chapID
+}
